@@ -307,6 +307,12 @@ def _api_cases(rng, full):
                                                  base(name, r, mode, g2, family="step", sub_ref="G", edit_to_sub=True),
                                                  base(name, r, mode, g1, family="step", sub_ref="G", edit_to_sub=True)]))
         if bsub:
+            out.append(hist("template-object-and-string-reused", [
+                base(name, r, mode, sub, core=False, family="step", tpl_form="string"),
+                base(name, r, mode, bsub, inv=True, core=False, family="step", tpl_form="string"),
+                base(name, r, mode, sub, family="step", tpl_ref="T"),
+                base(name, r, mode, bsub, inv=True, family="step", tpl_ref="T", reads=2),
+                base(name, r, mode, sub, family="step", tpl_ref="T")]))
             out.append(hist("fwd-then-bwd", [base(name, r, mode, sub, family="step", reads=2),
                                             base(name, r, mode, bsub, inv=True, family="step", reads=3)]))
     # --- degenerate values
@@ -345,9 +351,15 @@ def _history_run(case, fn):
     """run the steps of a history case IN ORDER IN THIS PROCESS (shared module state, shared substrate objects, in-place
     edits between steps) and apply fn(step) to each"""
     shared = {}
+    shared_t = {}
     out = []
     for st in case["steps"]:
         st = dict(st)
+        tref = st.get("tpl_ref")
+        if tref is not None:
+            if tref not in shared_t:
+                shared_t[tref] = K.tpl_graph(st["tpl"])
+            st["_shared_tpl"] = shared_t[tref]      # the SAME template graph object handed to several reactors
         ref = st.get("sub_ref")
         if ref is not None:
             if ref not in shared:
@@ -363,6 +375,7 @@ def _history_run(case, fn):
             out.append(fn(st))
         finally:
             st.pop("_shared_sub", None)
+            st.pop("_shared_tpl", None)
     return out
 
 
@@ -373,6 +386,7 @@ def prepare(case):
         steps = _history_run(case, prepare)
         for st in steps:
             st.pop("_shared_sub", None)
+            st.pop("_shared_tpl", None)
         case["steps"] = steps
         case["pre"] = {"history": True}
         return case
